@@ -6,6 +6,10 @@ correspondence : scale_rows / scale_columns (CSR, CSC, BSR; COO through the CSR 
                  filter_operator and the raw kernels csc_scale_rows / csc_scale_columns / filter_matrix_rows /
                  truncate_rows_csr / pinv_array vs the Lean models of Model/C19Utils.lean on Rat / Gaussian
                  rationals: exact where binary64 arithmetic is exact (dyadic data), 1e-9 otherwise.
+                 (E39) _approximate_eigenvalues (Arnoldi / Lanczos loop behind approximate_spectral_radius and condest): H, V and
+                 breakdown_flag of every call (direct calls with initial_guess, every restart cycle of
+                 approximate_spectral_radius, the call inside condest) vs the Lean model Model/ExtC19SArnoldi.lean run in
+                 binary64 (op ext_c19_arnoldi), tolerance 200 eps prod_j (1 + ||A||_2 / H[j+1, j]).
 search         : every utility vs an independent dense NumPy statement of its definition (all formats,
                  copy semantics, caches, call histories); approximate_spectral_radius in [0.9 rho, rho] on
                  Hermitian matrices; condest / cond vs numpy.linalg.cond(A, 2).
@@ -29,11 +33,27 @@ META = {
             'blocks, cache histories, BtBinv given or not); a case is non-trivial when the matrix has >= 2 stored entries; '
             'distinct = distinct (utility, options, input); spectral part: Hermitian matrices n = 1..400 (dense random, Poisson, '
             'clustered, indefinite, +-1 and rank-one spectra, complex), start vectors from np.random seeded per case; '
-            'condition part: dense n = 1..8, cond <= 300, real/complex, Hermitian or not, maxiter >= n',
+            'condition part: dense n = 1..8, cond <= 300, real/complex, Hermitian or not, maxiter >= n; '
+            'Krylov part (E39): real matrices n = 1..12 (symmetric, SPD, general, nilpotent, few distinct eigenvalues = early '
+            'breakdown, scales 2e-10 .. 50 so that the breakdown test itself is exercised) in dense / CSR / CSC, symmetric flag '
+            'on and off (also on for a few nonsymmetric matrices), maxiter 1 .. n + 2 and 15 / 25, restart 0 .. 5, given and '
+            'random start vectors; one case per recorded call of _approximate_eigenvalues, non-trivial when n >= 2 and H has '
+            '>= 2 columns',
     'search_only': ['approximate_spectral_radius >= 0.9 rho (depends on the random start vector; checked for the default or '
                     'stronger maxiter / restart / tol only)',
-                    'approximate_spectral_radius <= rho (1 + 1e-10) on the real code (ritz_le_rho is about exact arithmetic and '
-                    'an orthonormal Krylov basis; LAPACK eigenvalues trusted)',
+                    'approximate_spectral_radius <= rho (1 + 1e-10) on the real code in binary64: since E39 the exact-arithmetic '
+                    'statement is a theorem about the executable model of the Krylov loop (arnoldi_model_ritz_le_rho: the model '
+                    'basis is orthonormal, H = V^T A V, the hypotheses of ritz_le_rho are discharged, every Ritz value of every '
+                    'restart cycle is <= rho for real symmetric A) and the loop is tied to the code by the binary64 correspondence; '
+                    'what stays search-only is the effect of rounding (loss of orthogonality: the known finding) and the '
+                    'eigenvalues of the small Hessenberg matrix, which are LAPACK\'s (scipy.linalg.eig, trusted)',
+                    'the restart logic of approximate_spectral_radius (choice of the restart vector V W[:, argmax], stopping '
+                    'test on |H[m, m-1] W[m-1, argmax]| -- arnoldi_model_residual says this is the residual norm of the Ritz pair) '
+                    'is not modelled: the start vector of every cycle is read off the real run and fed to the model',
+                    'complex Hermitian matrices and the complex restart vectors that nonsymmetric matrices produce are outside the '
+                    'Krylov model (real scalars only); they are covered by the search part only',
+                    'nonsymmetric matrices: nothing is promised by the property; the theorems then bound the real Ritz values by the '
+                    'numerical range, whose radius can exceed rho (example in Props/C19.lean: nilpotent 2 x 2 matrix, estimate 12/25)',
                     'condest == cond_2 when Arnoldi/Lanczos completes (tolerance 1e-6; observed 1e-11), cond == numpy.linalg.cond',
                     'copy semantics (input untouched and no shared data when copy=True; filters and truncation never modify '
                     'their input): hashes of the input arrays before/after',
@@ -56,14 +76,23 @@ META = {
                 'block_diag_inv_total / scale_block_inverse_spec state the block-diagonal pseudo-inverse scaling; '
                 'COO fallback of scale_rows / scale_columns: model cooScale (op ext_c19_cooscale) with '
                 'coo_scale_rows_entry / coo_scale_cols_entry',
-                'proj_constraint is a Mathlib-matrix statement (real transpose, shared with C10)'],
+                'proj_constraint is a Mathlib-matrix statement (real transpose, shared with C10)',
+                'spectral radius / condition estimate (E39): arnoldi_model_* / lanczos_* / vec_* are exact-arithmetic statements '
+                '(ordered field, exact square root, definite form) about the loop model, for real scalars; the symmetric branch is '
+                'proved equal to the general branch for symmetric operators (lanczos_eq_arnoldi); "all eigenvalues of the symmetric '
+                'tridiagonal H are real" and the lower bound 0.9 rho are not proved'],
     'assumptions': ['binary64 rounding is outside the model: exact comparison on dyadic inputs, tolerance 1e-9 where a quotient '
                     'or square root is not dyadic; complex moduli equal or within 1e-12 of a threshold are not judged',
                     'block pseudo-inverses (Jacobi SVD kernel / LAPACK gelss) are compared with the exact Moore-Penrose inverse '
                     'on blocks whose non-zero singular values exceed 0.05 ||A||',
                     'filter_operator: block rows whose local Gram matrix B_J^H B_J is singular or has condition number > 1e6 '
                     'are only checked for the pattern',
-                    'complex CSC scaling is not supported by the kernels (TypeError) and is not generated ("complex where supported")'],
+                    'complex CSC scaling is not supported by the kernels (TypeError) and is not generated ("complex where supported")',
+                    'Krylov model vs code (E39): binary64 on both sides but BLAS summation order differs: H and V are compared '
+                    'within 200 eps prod_{i<j} (1 + ||A||_2 / H[i+1, i]) (x ||A||_2 for H) for column / vector j; once that bound '
+                    'exceeds 1e-6 only the shapes are compared; the flag is not compared when the last H[m, m-1] is within 10 bound '
+                    '||A|| of the breakdown tolerance 1e6 eps; the vector appended at breakdown (normalised round-off) is compared '
+                    'by its norm only'],
 }
 
 FK_DIAG_NONCSR = 'filter-rows-diagonal-non-csr-noop'
@@ -1491,7 +1520,8 @@ def _arn_compare(call, op, reply):
         j = first + i
         if j == m and call['flag']:
             # the vector appended at breakdown is normalised round-off: only its norm (1, or 0 when H[m, m-1] == 0) is compared
-            if abs(np.linalg.norm(a) - np.linalg.norm(b)) > 1e-8:
+            # (not when exactly one of the two norms H[m, m-1] is zero: round-off decides that)
+            if (hs[-1] == 0.0) == (float(cols[-1][-1]) == 0.0) and abs(np.linalg.norm(a) - np.linalg.norm(b)) > 1e-8:
                 return f'the vector appended at breakdown has norm {np.linalg.norm(b)!r} in the code, {np.linalg.norm(a)!r} in the model'
             continue
         if not bounds[j] <= ARN_MAX_BOUND:
